@@ -251,7 +251,70 @@ def limits(F, R):
     R.ob('C19.limits', 'v3-server|PUBLISH arm enforces cfg.max_qos', okq, 'the v3 PUBLISH arm does not compare the QoS with the configured maximum')
 
 
+def max_qos_roundtrip(F, R):
+    """v5 MqttShared keeps the negotiated Maximum QoS in two flag bits. The setter's per-variant
+    insert/remove sequences and the getter's decision list are extracted and evaluated for every previous
+    flag state x every value: max_qos() after set_max_qos(v) is v (so the value stored after the handshake
+    is the one that is enforced, whatever was configured before)."""
+    sb = F.one(r'^v5::shared::MqttShared::set_max_qos$')
+    gb = F.one(r'^v5::shared::MqttShared::max_qos$')
+    qos = F.adts['types::QoS']
+    names = {v.get('discr', i): v['name'] for i, v in enumerate(qos['variants'])}
+
+    def cname(t):
+        while isinstance(t, tuple) and t and t[0] in ('ref', 'deref'):
+            t = t[1]
+        return str(t[1]).split('::')[-1] if isinstance(t, tuple) and t and t[0] == 'constx' else None
+    setters = {}
+    for p in SymEx(sb, F).run():
+        if p.end[0] != 'return':
+            continue
+        v = None
+        for t, c in p.conds:
+            if t[0] == 'discr' and c[0] == 'eq':
+                v = c[1]
+        ops = []
+        for nm, a, bi in p.calls:
+            base = nm.split('::')[-1]
+            if base in ('insert', 'remove', 'set', 'toggle') and len(a) >= 2 and cname(a[1]):
+                ops.append((base, cname(a[1])))
+        stores = [1 for nm, a, bi in p.calls if nm.endswith('Cell::<T>::set')]
+        if v is not None:
+            setters[v] = (ops, bool(stores))
+    getters = []
+    for p in SymEx(gb, F).run():
+        if p.end[0] != 'return' or not p.ret or p.ret[0] != 'agg':
+            continue
+        conds = []
+        for t, c in p.conds:
+            if t[0] == 'call' and t[1].split('::')[-1] == 'contains' and len(t[2]) >= 2 and cname(t[2][1]):
+                val = 1 if (c[0] == 'ne' and 0 in c[1]) or c == ('eq', 1) else 0
+                conds.append((cname(t[2][1]), val))
+        getters.append((conds, p.ret[2]))
+    R.ob('C19.limits', 'v5::MqttShared::max_qos|extracted', len(setters) == 3 and len(getters) >= 3 and all(st for _, st in setters.values()), 'setter paths %d, getter paths %d' % (len(setters), len(getters)), sb.loc(0))
+    flags = sorted({f for ops, _ in setters.values() for _, f in ops} | {f for conds, _ in getters for f, _ in conds})
+    bad = None
+    import itertools
+    for mask in itertools.product((0, 1), repeat=len(flags)):
+        state = {f for f, m in zip(flags, mask) if m}
+        for v, (ops, _) in setters.items():
+            s2 = set(state)
+            for op, f in ops:
+                if op == 'insert':
+                    s2.add(f)
+                elif op == 'remove':
+                    s2.discard(f)
+                elif op == 'toggle':
+                    s2 ^= {f}
+            got = [ret for conds, ret in getters if all((f in s2) == bool(val) for f, val in conds)]
+            if got != [names[v]] and bad is None:
+                bad = 'flags %s, set_max_qos(%s) -> flags %s -> max_qos() = %s' % (sorted(state) or '{}', names[v], sorted(s2) or '{}', got)
+    R.ob('C19.limits', 'v5::MqttShared|max_qos()==last-set_max_qos(v)-for-every-previous-state', bad is None,
+         'the Maximum QoS stored after the handshake is not the one enforced: %s' % bad, sb.loc(0))
+
+
 def run(F, R):
+    max_qos_roundtrip(F, R)
     gate(F, R)
     version_route(F, R)
     limits(F, R)
